@@ -7,11 +7,13 @@ import (
 	"go/token"
 	"go/types"
 	"os"
+	"os/exec"
 	"runtime"
 	"runtime/debug"
 	"sort"
 	"strings"
 	"sync"
+	"sync/atomic"
 	"time"
 )
 
@@ -63,6 +65,7 @@ type pathState struct {
 	pc     []*term
 	sent   int // pc[:sent] already asserted in the solver
 	slv    *solver
+	aux    *solver // non-incremental solver for validity queries
 	vars   []*term
 	inputs []NondetRec
 	model  map[string]uint64 // a model of pc (nil if unknown)
@@ -79,6 +82,9 @@ type pathState struct {
 	budget      int64
 	assertSites map[string]int
 	mapOrderDec bool
+	lits        map[*term]bool
+	cacheHits   int
+	pendingAs   []pendingAssert
 	notes       []string
 	observed    []string
 }
@@ -90,7 +96,27 @@ func (p *pathState) flush() {
 }
 
 func (p *pathState) addPC(lit *term) {
+	if p.lits[lit] {
+		return
+	}
 	p.pc = append(p.pc, lit)
+	p.noteLit(lit)
+}
+
+// noteLit records lit (and the conjuncts it implies) as true on this path.
+func (p *pathState) noteLit(lit *term) {
+	if p.lits[lit] {
+		return
+	}
+	p.lits[lit] = true
+	switch {
+	case lit.op == "and":
+		p.noteLit(lit.args[0])
+		p.noteLit(lit.args[1])
+	case lit.op == "not" && lit.args[0].op == "or":
+		p.noteLit(mkNot(lit.args[0].args[0]))
+		p.noteLit(mkNot(lit.args[0].args[1]))
+	}
 }
 
 // evalModel evaluates c under the cached model, if there is one.
@@ -119,6 +145,16 @@ func (p *pathState) decide(c *term) bool {
 }
 
 func (p *pathState) decideVal(c *term, val uint64, isVal bool) bool {
+	// literals already on the path condition decide without a log entry (replays see the
+	// same path condition, so they skip the same calls)
+	if !isVal {
+		if p.lits[c] {
+			return true
+		}
+		if p.lits[mkNot(c)] {
+			return false
+		}
+	}
 	var side bool
 	if pos := len(p.log); pos < len(p.prefix) {
 		side = p.prefix[pos].Side
@@ -127,74 +163,37 @@ func (p *pathState) decideVal(c *term, val uint64, isVal bool) bool {
 			p.model = nil
 		}
 	} else {
-		p.flush()
 		p.dataDec++
+		mv, mok := p.evalModel(c)
 		var satT, satF bool
-		if mv, ok := p.evalModel(c); ok {
-			// model witnesses one side; ask only about the other, keeping the model
-			saved := p.model
-			other := c
-			if mv {
-				other = mkNot(c)
-			}
-			r := p.slv.check(other)
-			if r == "unknown" || r == "restart" {
-				p.unknownBr++
-			}
-			if r == "restart" {
-				p.sent = 0
-				p.slv.reset()
-				p.flush()
-			}
-			p.model = saved
-			satT, satF = true, true
-			if r == "unsat" {
-				if mv {
-					satF = false
-				} else {
-					satT = false
-				}
-			}
-			side = mv
+		var mT, mF map[string]uint64
+		if mok && mv {
+			satT = true
 		} else {
-			r := p.checkWithModel(c)
-			if r == "restart" {
-				p.sent = 0
-				p.slv.reset()
-				p.flush()
-			}
-			switch r {
-			case "unsat":
-				satT, satF = false, true // pc itself is satisfiable by construction
-				p.model = nil
-			case "sat":
-				satT = true
-				saved := p.model
-				r2 := p.slv.check(mkNot(c))
-				if r2 == "restart" {
-					p.sent = 0
-					p.slv.reset()
-					p.flush()
-				}
-				p.model = saved
-				satF = r2 != "unsat"
-				if r2 != "sat" && r2 != "unsat" {
-					p.unknownBr++
-				}
-			default:
-				p.unknownBr++
-				satT, satF = true, true
-				p.model = nil
-			}
-			side = satT
+			satT, mT = p.feasible(c)
+		}
+		if mok && !mv {
+			satF = true
+		} else {
+			satF, mF = p.feasible(mkNot(c))
+		}
+		switch {
+		case !satT && !satF:
+			panic(pruned{})
+		case mok && ((mv && satT) || (!mv && satF)):
+			side = mv // keep the model
+		case satT:
+			side = true
+			p.model = mT
+		default:
+			side = false
+			p.model = mF
 		}
 		if satT && satF {
 			alt := make([]Decision, len(p.log), len(p.log)+1)
 			copy(alt, p.log)
 			alt = append(alt, Decision{Side: !side, Val: val, IsVal: isVal})
 			p.pending = append(p.pending, alt)
-		} else if !satT && !satF {
-			panic(pruned{})
 		}
 	}
 	p.log = append(p.log, Decision{Side: side, Val: val, IsVal: isVal})
@@ -204,6 +203,175 @@ func (p *pathState) decideVal(c *term, val uint64, isVal bool) bool {
 	}
 	p.addPC(lit)
 	return side
+}
+
+// feasible asks whether pc ∧ q is satisfiable. Answers are cached per worker under the
+// independence slice of q (the constraints transitively sharing variables with q): the
+// rest of the path condition is satisfiable by construction and shares no variable, so the
+// slice decides the query. unknown counts as feasible.
+func (p *pathState) feasible(q *term) (bool, map[string]uint64) {
+	if q.isConst() {
+		return q.val != 0, nil
+	}
+	qc := p.slv.qc
+	// 1. a known unsat core whose literals are all on this path
+	qc.mu.RLock()
+	cores := qc.cores[q]
+	qc.mu.RUnlock()
+	for _, core := range cores {
+		all := true
+		for _, l := range core {
+			if !p.lits[l] {
+				all = false
+				break
+			}
+		}
+		if all {
+			p.cacheHits++
+			atomic.AddInt64(&qc.CoreHits, 1)
+			return false, nil
+		}
+	}
+	// 2. a recent model that satisfies the independence slice of q and q itself
+	slice := p.slice(q)
+	qc.mu.RLock()
+	models := append([]map[string]uint64{}, qc.models...)
+	qc.mu.RUnlock()
+	for _, m := range models {
+		memo := map[*term]uint64{}
+		if v, ok := q.eval(m, memo); !ok || v == 0 {
+			continue
+		}
+		good := true
+		for _, c := range slice {
+			if v, ok := c.eval(m, memo); !ok || v == 0 {
+				good = false
+				break
+			}
+		}
+		if good {
+			p.cacheHits++
+			atomic.AddInt64(&qc.ModelHits, 1)
+			// combine with the current full model on the other variables, if there is one
+			if p.model != nil {
+				full := map[string]uint64{}
+				for k, v := range p.model {
+					full[k] = v
+				}
+				seen := map[*term]bool{}
+				for _, c := range append(slice, q) {
+					for _, v := range c.varsOf() {
+						if !seen[v] {
+							seen[v] = true
+							full[v.name] = m[v.name]
+						}
+					}
+				}
+				return true, full
+			}
+			return true, nil
+		}
+	}
+	// 3. the solver
+	p.flush()
+	m, r, core := p.slv.modelCore(q, p.vars)
+	switch r {
+	case "sat":
+		qc.addModel(m)
+		return true, m
+	case "unsat":
+		qc.addCore(q, core)
+		return false, nil
+	case "restart":
+		p.sent = 0
+		p.slv.reset()
+		p.flush()
+	}
+	p.unknownBr++
+	return true, nil
+}
+
+// slice: the constraints of the path condition that transitively share variables with q.
+func (p *pathState) slice(q *term) []*term {
+	vs := map[*term]bool{}
+	for _, v := range q.varsOf() {
+		vs[v] = true
+	}
+	in := make([]bool, len(p.pc))
+	for changed := true; changed; {
+		changed = false
+		for i, c := range p.pc {
+			if in[i] {
+				continue
+			}
+			cv := c.varsOf()
+			hit := false
+			for _, v := range cv {
+				if vs[v] {
+					hit = true
+					break
+				}
+			}
+			if hit {
+				in[i] = true
+				changed = true
+				for _, v := range cv {
+					vs[v] = true
+				}
+			}
+		}
+	}
+	var out []*term
+	for i, c := range p.pc {
+		if in[i] {
+			out = append(out, c)
+		}
+	}
+	return out
+}
+
+func (p *pathState) sliceKey(q *term) string {
+	vs := map[*term]bool{}
+	for _, v := range q.varsOf() {
+		vs[v] = true
+	}
+	in := make([]bool, len(p.pc))
+	for changed := true; changed; {
+		changed = false
+		for i, c := range p.pc {
+			if in[i] {
+				continue
+			}
+			cv := c.varsOf()
+			hit := false
+			for _, v := range cv {
+				if vs[v] {
+					hit = true
+					break
+				}
+			}
+			if hit {
+				in[i] = true
+				changed = true
+				for _, v := range cv {
+					vs[v] = true
+				}
+			}
+		}
+	}
+	ids := make([]uint64, 0, len(p.pc))
+	for i, c := range p.pc {
+		if in[i] {
+			ids = append(ids, c.id)
+		}
+	}
+	sort.Slice(ids, func(i, j int) bool { return ids[i] < ids[j] })
+	var sb strings.Builder
+	for _, id := range ids {
+		fmt.Fprintf(&sb, "%x,", id)
+	}
+	fmt.Fprintf(&sb, "|%x", q.id)
+	return sb.String()
 }
 
 // concretize picks a concrete value for a symbolic integer, forking over all feasible values.
@@ -266,6 +434,7 @@ func sanitize(s string) string {
 
 // assume adds c to the path condition; the path ends if that is infeasible.
 func (p *pathState) assume(v value) {
+	p.flushAsserts()
 	switch x := v.(type) {
 	case bool:
 		if !x {
@@ -332,7 +501,10 @@ func (p *pathState) fail(kind, msg, site string, m map[string]uint64) {
 		Inputs: p.inputsWithModel(m), Decisions: append([]Decision{}, p.log...), Count: 1, MapOrder: p.mapOrderDec})
 }
 
-// assert checks that c holds on every input of this path.
+// assert records the obligation that c holds on every input of this path. Symbolic
+// obligations are collected and discharged in one solver query per batch (flushAsserts):
+// the asserted condition is NOT added to the path condition, so inputs violating it keep
+// flowing down some path and are caught when that path's batch is checked.
 func (p *pathState) assert(v value, msg, site string) {
 	p.obligations++
 	if p.assertSites != nil {
@@ -341,44 +513,109 @@ func (p *pathState) assert(v value, msg, site string) {
 	switch x := v.(type) {
 	case bool:
 		if !x {
+			p.flushAsserts()
 			p.fail("assert", msg, site, p.anyModel())
 			panic(pathDone{})
 		}
 		p.discharged++
 	case sym:
-		if x.e.isTrue() {
+		if x.e.isTrue() || p.lits[x.e] {
 			p.discharged++
 			return
 		}
+		p.pendingAs = append(p.pendingAs, pendingAssert{x.e, msg, site})
+	default:
+		panic(fmt.Sprintf("assert: %T", v))
+	}
+}
+
+type pendingAssert struct {
+	c         *term
+	msg, site string
+}
+
+// flushAsserts discharges the collected obligations under the current path condition.
+func (p *pathState) flushAsserts() {
+	if len(p.pendingAs) == 0 {
+		return
+	}
+	batch := p.pendingAs
+	p.pendingAs = nil
+	conj := termTrue
+	for _, a := range batch {
+		conj = mkAnd(conj, a.c)
+	}
+	q := mkNot(conj)
+	if q.isFalse() {
+		p.discharged += len(batch)
+		return
+	}
+	qc := p.slv.qc
+	qc.mu.RLock()
+	cores := qc.cores[q]
+	qc.mu.RUnlock()
+	for _, core := range cores {
+		all := true
+		for _, l := range core {
+			if !p.lits[l] {
+				all = false
+				break
+			}
+		}
+		if all {
+			p.cacheHits++
+			atomic.AddInt64(&qc.CoreHits, 1)
+			p.discharged += len(batch)
+			return
+		}
+	}
+	p.flush()
+	r := "sat"
+	useAux := p.aux != nil && qc.pickAux()
+	tq := time.Now()
+	defer func() { qc.noteBatch(useAux, time.Since(tq)) }()
+	if useAux {
+		sl := p.slice(q)
+		var core []*term
+		r, core = p.aux.checkStandalone(sl, q)
+		if r == "unsat" {
+			qc.addCore(q, core)
+		} else if r == "restart" {
+			r = "unknown"
+		}
+	} else if len(batch) > 1 {
+		var core []*term
+		r, core = p.slv.checkCore(q)
+		if r == "unsat" {
+			qc.addCore(q, core)
+		}
+	}
+	if r == "unsat" {
+		p.discharged += len(batch)
+		return
+	}
+	if r == "restart" {
+		p.sent = 0
+		p.slv.reset()
 		p.flush()
-		m, r := p.slv.model(mkNot(x.e), p.vars)
+	}
+	// some obligation fails (or the batch is undecided): examine them one by one
+	for _, a := range batch {
+		m, r := p.slv.model(mkNot(a.c), p.vars)
 		switch r {
 		case "unsat":
 			p.discharged++
 		case "sat":
-			p.fail("assert", msg, site, m)
+			p.fail("assert", a.msg, a.site, m)
 		default:
 			p.unknownAs++
-			p.notes = append(p.notes, "assertion undecided ("+r+"): "+msg)
+			p.notes = append(p.notes, "assertion undecided ("+r+"): "+a.msg)
 			if r == "restart" {
 				p.sent = 0
 				p.slv.reset()
 				p.flush()
 			}
 		}
-		// continue under c so later assertions report distinct problems
-		if mv, ok := p.evalModel(x.e); !ok || !mv {
-			p.model = nil
-		}
-		p.flush()
-		if r == "sat" {
-			if p.slv.check(x.e) == "unsat" {
-				panic(pathDone{})
-			}
-		}
-		p.addPC(x.e)
-	default:
-		panic(fmt.Sprintf("assert: %T", v))
 	}
 }
 
@@ -411,6 +648,9 @@ type Result struct {
 	UnknownAs   int
 	Decisions   int
 	DataDec     int
+	CacheHits   int
+	CoreHits    int64
+	ModelHits   int64
 	Instrs      int64
 	Solver      SolverStats
 	Wall        time.Duration
@@ -447,11 +687,12 @@ func (pg *Program) Explore(fnName string, pkgPath string, opt Options) (*Result,
 		opt.MaxInstr = 50_000_000
 	}
 	if len(opt.Solver) == 0 {
-		opt.Solver = []string{"z3", "-in"}
+		opt.Solver = defaultSolver()
 	}
 	res := &Result{Harness: fnName, AbortWhy: map[string]int{}, AssertSites: map[string]int{}, Funcs: map[string]bool{}}
 	t0 := time.Now()
 	var mu sync.Mutex
+	qc := newQcache()
 	cond := sync.NewCond(&mu)
 	work := [][]Decision{opt.Prefix}
 	active := 0
@@ -460,7 +701,15 @@ func (pg *Program) Explore(fnName string, pkgPath string, opt Options) (*Result,
 
 	worker := func() {
 		slv := newSolver(opt.Solver, opt.QueryTimeout)
+		slv.qc = qc
 		defer slv.close()
+		var aux *solver
+		if os.Getenv("SYMGO_NOAUX") == "" {
+			if z, err := exec.LookPath("z3"); err == nil {
+				aux = newSolver([]string{z, "-in"}, opt.QueryTimeout)
+				defer aux.close()
+			}
+		}
 		in := pg.newInterp()
 		in.trace = opt.Trace
 		for {
@@ -479,7 +728,7 @@ func (pg *Program) Explore(fnName string, pkgPath string, opt Options) (*Result,
 			mu.Unlock()
 
 			slv.reset()
-			p := &pathState{prefix: pre, slv: slv, budget: opt.MaxInstr, assertSites: map[string]int{}}
+			p := &pathState{prefix: pre, slv: slv, aux: aux, budget: opt.MaxInstr, assertSites: map[string]int{}, lits: map[*term]bool{}}
 			outcome := in.runPath(fn, p, opt.Args)
 
 			mu.Lock()
@@ -504,6 +753,7 @@ func (pg *Program) Explore(fnName string, pkgPath string, opt Options) (*Result,
 			res.UnknownAs += p.unknownAs
 			res.Decisions += len(p.log)
 			res.DataDec += p.dataDec
+			res.CacheHits += p.cacheHits
 			res.Instrs += p.instrs
 			for s, n := range p.assertSites {
 				res.AssertSites[s] += n
@@ -548,9 +798,30 @@ func (pg *Program) Explore(fnName string, pkgPath string, opt Options) (*Result,
 				res.BudgetHit = fmt.Sprintf("time budget %v reached with %d prefixes pending", opt.Timeout, len(work))
 			}
 			slv.stats, res.Solver = SolverStats{}, addStats(res.Solver, slv.stats)
+			if aux != nil {
+				aux.stats, res.Solver = SolverStats{}, addStats(res.Solver, aux.stats)
+			}
 			mu.Unlock()
 			cond.Broadcast()
 		}
+	}
+	if os.Getenv("SYMGO_PROGRESS") != "" {
+		done := make(chan bool)
+		defer close(done)
+		go func() {
+			tk := time.NewTicker(5 * time.Second)
+			defer tk.Stop()
+			for {
+				select {
+				case <-done:
+					return
+				case <-tk.C:
+					mu.Lock()
+					fmt.Fprintf(os.Stderr, "[progress %s] paths=%d pending=%d active=%d failures=%d queries=%d aborted=%d\n", fnName, res.Paths, len(work), active, len(res.Failures), res.Solver.Queries, res.Aborted)
+					mu.Unlock()
+				}
+			}
+		}()
 	}
 	var wg sync.WaitGroup
 	for w := 0; w < opt.Workers; w++ {
@@ -559,6 +830,7 @@ func (pg *Program) Explore(fnName string, pkgPath string, opt Options) (*Result,
 	}
 	wg.Wait()
 	res.Wall = time.Since(t0)
+	res.CoreHits, res.ModelHits = qc.CoreHits, qc.ModelHits
 	res.Exhaustive = res.BudgetHit == "" && res.Aborted == 0 && res.UnknownAs == 0
 	sort.Slice(res.Failures, func(i, j int) bool { return res.Failures[i].Site+res.Failures[i].Msg < res.Failures[j].Site+res.Failures[j].Msg })
 	return res, nil
@@ -595,6 +867,15 @@ func (in *interpreter) runPath(fn ssaFunc, p *pathState, args []value) (out path
 	defer func() {
 		p.instrs = in.instrCount
 		r := recover()
+		func() {
+			defer func() {
+				if r2 := recover(); r2 != nil {
+					p.notes = append(p.notes, fmt.Sprintf("assertion batch could not be checked: %v", r2))
+					p.unknownAs++
+				}
+			}()
+			p.flushAsserts()
+		}()
 		if r == nil {
 			return
 		}
@@ -681,4 +962,17 @@ func (in *interpreter) curPos() string {
 		return in.curFn.String()
 	}
 	return "?"
+}
+
+// defaultSolver: z3 5.1.0 (z3-new) when present — its incremental bit-vector engine decides
+// the roaring key/low-bit constraints in milliseconds where 4.8.12 needs seconds — else
+// the system z3. SYMGO_SOLVER overrides (e.g. "z3 -in").
+func defaultSolver() []string {
+	if s := os.Getenv("SYMGO_SOLVER"); s != "" {
+		return strings.Fields(s)
+	}
+	if p, err := exec.LookPath("z3-new"); err == nil {
+		return []string{p, "-in"}
+	}
+	return []string{"z3", "-in"}
 }
